@@ -1,7 +1,7 @@
 //! Address, Bytes, BytesN, String, Symbol.
 use crate::buf::{Buf, De, MDefault, Rd, Ser};
 use crate::val::*;
-use crate::{Env, BCAP, SCAP};
+use crate::{Env, BCAP, LONGB, SCAP};
 
 // ------------------------------------------------------------------ Address
 /// Opaque principal: a small integer id.  Id 0 is the designated "zero address".
@@ -87,7 +87,44 @@ impl TryFromVal<Env, Val> for Address {
 // ------------------------------------------------------------------ Bytes
 #[derive(Clone, Debug, PartialEq, Eq)]
 pub struct Bytes(pub Buf);
+/// Abstract LONG byte strings (profile switch LONGB=1): a byte string longer than any buffer of the
+/// model, of ANY length up to u32::MAX, whose content is opaque.  It is represented inside the ordinary
+/// buffer as 16 bytes: a reserved 4-byte mark, the true length (4 bytes), a content fingerprint (8 bytes).
+/// Equality, serialisation and hashing therefore distinguish two long strings exactly by (length,
+/// fingerprint); a proper sub-range has a fingerprint different from its source; reading individual
+/// bytes or concatenating is outside the abstraction (MODEL: inconclusive).  Code that only passes a
+/// payload on, hashes it, or cuts it — the gateway and the executable helper — is covered for every
+/// payload length this way, which no concrete buffer size can do.
+pub const LONG_MARK: [u8; 4] = [0xFD, 0x4C, 0x4F, 0x4E];
 impl Bytes {
+    #[inline(always)]
+    pub fn is_long(&self) -> bool {
+        LONGB != 0 && self.0.len == 16 && self.0.d[0] == LONG_MARK[0] && self.0.d[1] == LONG_MARK[1] && self.0.d[2] == LONG_MARK[2] && self.0.d[3] == LONG_MARK[3]
+    }
+    pub fn long_len(&self) -> u32 {
+        ((self.0.d[4] as u32) << 24) | ((self.0.d[5] as u32) << 16) | ((self.0.d[6] as u32) << 8) | (self.0.d[7] as u32)
+    }
+    pub fn long_fp(&self) -> u64 {
+        let mut f = 0u64;
+        let mut i = 0;
+        while i < 8 {
+            f = (f << 8) | (self.0.d[8 + i] as u64);
+            i += 1;
+        }
+        f
+    }
+    pub fn make_long(len: u32, fp: u64) -> Bytes {
+        let mut b = Buf::new();
+        b.extend(&LONG_MARK);
+        b.extend(&len.to_be_bytes());
+        b.extend(&fp.to_be_bytes());
+        Bytes(b)
+    }
+    fn no_long(&self, _what: &'static str) {
+        if self.is_long() {
+            crate::mfail!("MODEL:content access or concatenation on an abstract long byte string");
+        }
+    }
     pub fn new(_e: &Env) -> Self {
         Bytes(Buf::new())
     }
@@ -98,24 +135,33 @@ impl Bytes {
         Bytes(Buf::from_slice(s))
     }
     pub fn extend_from_array<const N: usize>(&mut self, a: &[u8; N]) {
+        self.no_long("extend");
         self.0.extend(a)
     }
     pub fn extend_from_slice(&mut self, a: &[u8]) {
+        self.no_long("extend");
         self.0.extend(a)
     }
     pub fn append(&mut self, o: &Bytes) {
+        self.no_long("append");
+        o.no_long("append");
         self.0.extend_buf(&o.0)
     }
     pub fn push_back(&mut self, x: u8) {
+        self.no_long("push");
         self.0.push(x)
     }
     pub fn len(&self) -> u32 {
+        if self.is_long() {
+            return self.long_len();
+        }
         self.0.len as u32
     }
     pub fn is_empty(&self) -> bool {
         self.0.len == 0
     }
     pub fn get(&self, i: u32) -> Option<u8> {
+        self.no_long("get");
         if (i as usize) < self.0.len && (i as usize) < BCAP {
             Some(self.0.d[i as usize])
         } else {
@@ -139,6 +185,7 @@ impl Bytes {
         }
     }
     pub fn set(&mut self, i: u32, x: u8) {
+        self.no_long("set");
         if (i as usize) >= self.0.len || (i as usize) >= BCAP {
             crate::mtrap!("TRAP:bytes index");
         }
@@ -155,8 +202,34 @@ impl Bytes {
         let b = match r.end_bound() {
             Bound::Included(x) => *x as usize + 1,
             Bound::Excluded(x) => *x as usize,
-            Bound::Unbounded => self.0.len,
+            Bound::Unbounded => self.len() as usize,
         };
+        if self.is_long() {
+            let l = self.long_len() as usize;
+            if a > b || b > l {
+                crate::mtrap!("TRAP:bytes slice range");
+            }
+            if a == 0 && b == l {
+                return self.clone();
+            }
+            if b - a > BCAP {
+                // a proper sub-range that is still long: some other content
+                let fp: u64 = crate::model::nondet_u64();
+                crate::model::assume(fp != self.long_fp());
+                return Bytes::make_long((b - a) as u32, fp);
+            }
+            // a short cut of opaque content: arbitrary bytes of that length
+            let mut o = Buf::new();
+            let mut i = 0;
+            while i < BCAP {
+                if i < b - a {
+                    o.d[i] = crate::model::nondet_u8();
+                }
+                i += 1;
+            }
+            o.len = b - a;
+            return Bytes(o);
+        }
         if a > b || b > self.0.len {
             crate::mtrap!("TRAP:bytes slice range");
         }
@@ -172,12 +245,14 @@ impl Bytes {
         Bytes(o)
     }
     pub fn iter(&self) -> BytesIter {
+        self.no_long("iter");
         BytesIter { b: self.0, i: 0 }
     }
     pub fn to_val(&self) -> Val {
         Val::bufv(T_BYTES, self.0)
     }
     pub fn copy_into_slice(&self, out: &mut [u8]) {
+        self.no_long("copy_into_slice");
         if out.len() != self.0.len {
             crate::mtrap!("TRAP:copy_into_slice length");
         }
@@ -193,6 +268,7 @@ impl Bytes {
     pub fn to_alloc_vec(&self) -> std::vec::Vec<u8> {
         // one allocation of constant size, indexed writes, then a length cut: `push` on a heap
         // vector costs the symbolic executor minutes per element
+        self.no_long("to_alloc_vec");
         let mut v = std::vec![0u8; BCAP];
         let mut i = 0;
         while i < self.0.len && i < BCAP {
@@ -342,7 +418,7 @@ impl<const N: usize> TryFrom<Bytes> for BytesN<N> {
 impl<const N: usize> TryFrom<&Bytes> for BytesN<N> {
     type Error = ConversionError;
     fn try_from(b: &Bytes) -> Result<Self, ConversionError> {
-        if b.0.len != N {
+        if b.0.len != N || b.is_long() {
             return Err(ConversionError);
         }
         let mut a = [0u8; N];
